@@ -473,7 +473,19 @@ def inline_module(tree: ast.Module, known: Optional[Set[str]]) -> ast.Module:
         inlined_names: Set[str] = set()
 
         def names_now() -> Set[str]:
-            return _all_names(fn) | inlined_names
+            # names of the caller, not counting what only occurs inside the helper definitions nested in it
+            out: Set[str] = set()
+            stack = [fn]
+            while stack:
+                x = stack.pop()
+                if isinstance(x, ast.FunctionDef) and x is not fn and id(x) in helper_nodes:
+                    continue
+                if isinstance(x, ast.Name):
+                    out.add(x.id)
+                elif isinstance(x, ast.arg):
+                    out.add(x.arg)
+                stack.extend(ast.iter_child_nodes(x))
+            return out | inlined_names
 
         def try_inline_stmt(st: ast.stmt, budget: List[int]) -> List[ast.stmt]:
             nonlocal changed_any
